@@ -175,7 +175,7 @@ def install_sow2(R):
         return mk_V(z3.If(is_r, fv, z3.If(is_h, sub, T.VNone)))
     S["CropRunner"] = crop_runner
 
-    R.add(K + "Crop.parse_constants", cls="Crop", result="V", props=["C04", "C06"],
+    R.add(K + "Crop.parse_constants", cls="Crop", result="V", props=["C04", "C06", "C07"],
           requires=[("constants", "constants is None or is_dict(constants)")],
           ensures=[("raw", "implies(self.farmer is None, (result == constants) if is_dict(constants) else slen(result.keys()) == 0)"),
                    ("dict", "is_dict(result)"),
